@@ -13,7 +13,7 @@ import numpy as np
 import pandas as pd
 
 from . import refsim, recgen, interp
-from .common import digest
+from .common import scribble, digest
 
 refsim.install()
 from . import probes  # noqa: E402
@@ -87,6 +87,7 @@ def replay_case(arg):
             warnings.simplefilter('ignore')
             mech, nm = mech_model(nout, rec['regimen'], tag)
             pm = chi.PredictiveModel(mech, error_models(nout))
+            scribble(pm)
             names = pm.get_parameter_names()
             obs_names = pm.get_output_names()
             params = [1.2, 0.9, 0.7][:nm] + [0.3, 0.2][:nout]
